@@ -179,6 +179,18 @@ def cond(c, var):
         return r
     if isinstance(c, ast.UnaryOp) and isinstance(c.op, ast.Not):
         return "(CNot %s)" % cond(c.operand, var)
+    if (isinstance(c, ast.Call) and isinstance(c.func, ast.Name) and c.func.id == "any" and len(c.args) == 1 and not c.keywords
+            and isinstance(c.args[0], (ast.GeneratorExp, ast.ListComp)) and len(c.args[0].generators) == 1):
+        # any(<condition on item> for item in <expression>): evaluated item by item, in order, stopping at the first True
+        g = c.args[0].generators[0]
+        if g.ifs or g.is_async or not isinstance(g.target, ast.Name) or g.target.id == var:
+            raise Reject("any(...) generator outside grammar: " + ast.unparse(c))
+        elt = c.args[0].elt
+        if g.target.id != "item":
+            if any(isinstance(n, ast.Name) and n.id == "item" for n in ast.walk(elt)):
+                raise Reject("any(...) uses both 'item' and another loop variable")
+            elt = subst(elt, {g.target.id: ast.Name(id="item", ctx=ast.Load())})
+        return "(CAnyItem %s %s)" % (hexpr(g.iter, var), cond(elt, var))
     if isinstance(c, ast.Call) and isinstance(c.func, ast.Name) and not c.keywords and c.func.id in funcs and len(funcs[c.func.id]) == 1:
         # a helper predicate defined in _hooks.py whose body is one pure return expression: inline it
         fn = funcs[c.func.id][0]
